@@ -485,10 +485,17 @@ class PrintNode(visitor.Visitor):
         return ".."
 
     def visit_BinaryOp(self, node):
-        return self.visit(node.left) + node.op + self.visit(node.right)
+        right = self.visit(node.right)
+        if right[:1] == node.op[-1:] and node.op in "+-":
+            # a - -b must not become a--b, which C reads as a decrement.
+            right = " " + right
+        return self.visit(node.left) + node.op + right
 
     def visit_UnaryOp(self, node):
-        return node.op + self.visit(node.node)
+        operand = self.visit(node.node)
+        if operand[:1] == node.op and node.op in "+-":
+            operand = " " + operand
+        return node.op + operand
 
     def visit_ParenExpr(self, node):
         return "(" + self.visit(node.node) + ")"
